@@ -238,16 +238,24 @@ def match_known(f, known):
 
 
 def run_rules(ctx, rule_ids):
+    """Run the rules.  A rule that cannot give a verdict (vanished anchor,
+    vacuous match) records an error instead of stopping the others: if
+    another rule reports a violation that is the result; otherwise the
+    error makes the whole check ANALYSIS-ERROR."""
     runs = []
     for rid in rule_ids:
         rd = RULES[rid]
         rr = RuleRun(ctx, rd)
-        rd.func(rr)
-        if len(rr.instances) < rd.min_instances and not rr.findings:
-            raise AnalysisError(
-                '%s matched %d program constructs, fewer than the %d '
-                'confirmed by hand: the rule would pass vacuously' % (
-                    rid, len(rr.instances), rd.min_instances))
+        rr.error = None
+        try:
+            rd.func(rr)
+            if len(rr.instances) < rd.min_instances and not rr.findings:
+                raise AnalysisError(
+                    '%s matched %d program constructs, fewer than the %d '
+                    'confirmed by hand: the rule would pass vacuously' % (
+                        rid, len(rr.instances), rd.min_instances))
+        except AnalysisError as e:
+            rr.error = str(e)
         runs.append(rr)
     return runs
 
@@ -324,6 +332,11 @@ def check_property(pid, tier='quick', seed=0, out=sys.stdout, src=SRC,
             for line in f.witness:
                 print('      | %s' % line, file=out)
             print('VIOLATION property=%s replay=%s' % (pid, rp), file=out)
+    errors = [rr.error for rr in runs if rr.error]
+    for e in errors:
+        print('ANALYSIS-ERROR property=%s %s' % (pid, e), file=out)
+    if errors and not n_viol:
+        return 2
     wall = time.time() - t0
     if write_evidence:
         write_evidence_file(pid, tier, seed, runs, n_viol, n_known, wall, ctx)
